@@ -81,9 +81,9 @@ func guardedSub(bo *ssa.BinOp) (bool, string) {
 
 // auditedSubs: unsigned subtractions that are safe for a reason outside the function.
 var auditedSubs = map[string]string{
-	"conversions.ConversionSupplySet.Payouts conversions.ConversionSupplySet.Bank-(variable uint64)":   "totalPaid = sum of floor(c*Bank/total) over requests <= Bank (total >= Bank on this path)",
-	"node.Pegnetd.NullifyBurnAddress (parameter uint32 #0)-(variable int)":                   "j <= 62 and height is an activation height > 200000",
-	"node.Pegnetd.GetPegNetRateAverages node.AveragePeriod-numberMissing()": "numberMissing counts zeros of a window of at most AveragePeriod entries plus the missing entries, so it is <= AveragePeriod",
+	"conversions.ConversionSupplySet.Payouts conversions.ConversionSupplySet.Bank-(variable uint64)": "totalPaid = sum of floor(c*Bank/total) over requests <= Bank (total >= Bank on this path)",
+	"node.Pegnetd.NullifyBurnAddress (parameter uint32 #0)-(variable int)":                           "j <= 62 and height is an activation height > 200000",
+	"node.Pegnetd.GetPegNetRateAverages node.AveragePeriod-numberMissing()":                          "numberMissing counts zeros of a window of at most AveragePeriod entries plus the missing entries, so it is <= AveragePeriod",
 }
 
 func propC03(c *Ctx, r *Report) {
@@ -235,7 +235,7 @@ func propC03(c *Ctx, r *Report) {
 				Paths:  map[string]AVal{"fat2.TypedAddressAmountTuple.Amount": sym("amount")},
 				Lookups: map[string]AVal{
 					"SelectPendingBalances()#0[fat2.TypedAddressAmountTuple.Type]": sym("bal1"),
-					"[fat2.TypedAddressAmountTuple.Type]":                           sym("bal2"),
+					"[fat2.TypedAddressAmountTuple.Type]":                          sym("bal2"),
 				},
 				Order: func(a, b AVal) (int, bool) {
 					if a.K != ASym || b.K != ASym {
@@ -419,13 +419,19 @@ func propC03(c *Ctx, r *Report) {
 	rulePooledListAccumulates(c, r, newEraCtx(c, r), "C03-R12/pooled-list")
 	// applied completely: no statement error inside recordBatch is lost (same engine as C10)
 	r.rule("C03-R10/record-errors", 5, "every error while recording a batch reaches the caller")
-	runErrflow(c, computeEffects(c), r, map[*ssa.Function]bool{c.fn("node.Pegnetd.recordBatch"): true}, "C03-R10/record-errors", false)
+	{
+		scope := map[*ssa.Function]bool{}
+		for _, g := range c.family(c.fn("node.Pegnetd.recordBatch")) {
+			scope[g] = true
+		}
+		runErrflow(c, computeEffects(c), r, scope, "C03-R10/record-errors", false)
+	}
 	// applied completely: every transfer output of an executed batch is credited (shared with C04-R3)
 	r.rule("C03-R8/outputs-credited", 1, "only the burn address is exempt from being credited")
 	rb := c.fn("node.Pegnetd.recordBatch")
-	for _, a := range findCalls(rb, "pegnet.Pegnet.AddToBalance") {
+	for _, a := range c.findCallsFam(rb, "pegnet.Pegnet.AddToBalance") {
 		if typePath(a.Common().Args[4]) == "fat2.AddressAmountTuple.Amount" {
-			burnExemptionRule(c, r, rb, a, "C03-R8/outputs-credited", "")
+			burnExemptionRule(c, r, a.Parent(), a, "C03-R8/outputs-credited", "")
 		}
 	}
 }
@@ -498,6 +504,22 @@ func stablePath(v ssa.Value, depth int) string {
 		if x.Op == token.MUL {
 			if p := spilledParam(x); p != nil {
 				return stablePath(p, depth+1) // a parameter kept in a local slot because a closure captures it
+			}
+			if fv, ok := x.X.(*ssa.FreeVar); ok {
+				// inside the closure: the captured variable is the enclosing function's parameter slot
+				if al, _ := closureBinding(fv); al != nil && al.Referrers() != nil {
+					var val ssa.Value
+					n := 0
+					for _, rf := range *al.Referrers() {
+						if st, ok := rf.(*ssa.Store); ok && st.Addr == ssa.Value(al) {
+							n++
+							val = st.Val
+						}
+					}
+					if p, ok := val.(*ssa.Parameter); ok && n == 1 {
+						return stablePath(p, depth+1)
+					}
+				}
 			}
 			return stablePath(x.X, depth+1)
 		}
@@ -588,30 +610,36 @@ func ruleMidBatchFailure(c *Ctx, r *Report, rule string) {
 	rb := c.fn("node.Pegnetd.recordBatch")
 	{
 		var bad []string
-		allInstrs(rb, func(ins ssa.Instruction) {
-			ret, ok := ins.(*ssa.Return)
-			if !ok {
-				return
+		fam := c.family(rb) // recordBatch, its closures and helpers split off from it
+		for _, g := range fam {
+			if errResultIndex(g.Signature) < 0 {
+				continue
 			}
-			op := resolveSpill(ret.Results[0])
-			if g, ok := isGlobalErrLoad(op); ok {
-				bad = append(bad, fmt.Sprintf("recordBatch returns the sentinel %s at %s: the caller treats it as a clean rejection although transactions of the batch were already written", g.Name(), c.ipos(ret)))
-			}
-			// the txErr of SubFromBalance must not be returned as is
-			if ex, ok := op.(*ssa.Extract); ok {
-				if call, ok := ex.Tuple.(*ssa.Call); ok && shortCallee(call.Common()) == "SubFromBalance" && ex.Index == 1 {
-					bad = append(bad, "recordBatch returns SubFromBalance's insufficient-balance error unchanged at "+c.ipos(ret))
+			allInstrs(g, func(ins ssa.Instruction) {
+				ret, ok := ins.(*ssa.Return)
+				if !ok {
+					return
 				}
-			}
-		})
-		for _, ci := range findCalls(rb, "fmt.Errorf") {
+				op := resolveSpill(ret.Results[len(ret.Results)-1])
+				if g, ok := isGlobalErrLoad(op); ok {
+					bad = append(bad, fmt.Sprintf("recordBatch returns the sentinel %s at %s: the caller treats it as a clean rejection although transactions of the batch were already written", g.Name(), c.ipos(ret)))
+				}
+				// the txErr of SubFromBalance must not be returned as is
+				if ex, ok := op.(*ssa.Extract); ok {
+					if call, ok := ex.Tuple.(*ssa.Call); ok && shortCallee(call.Common()) == "SubFromBalance" && ex.Index == 1 {
+						bad = append(bad, "recordBatch returns SubFromBalance's insufficient-balance error unchanged at "+c.ipos(ret))
+					}
+				}
+			})
+		}
+		for _, ci := range c.findCallsFam(rb, "fmt.Errorf") {
 			if k, ok := ci.Common().Args[0].(*ssa.Const); ok && k.Value != nil && strings.Contains(constant.StringVal(k.Value), "%w") {
 				bad = append(bad, "recordBatch wraps an error with %w at "+c.ipos(ci)+": a wrapped sentinel can be recognised as a rejection")
 			}
 		}
 		// the txErr is tested
 		tested := false
-		for _, ci := range findCalls(rb, "pegnet.Pegnet.SubFromBalance") {
+		for _, ci := range c.findCallsFam(rb, "pegnet.Pegnet.SubFromBalance") {
 			call := ci.(*ssa.Call)
 			for _, rf := range *call.Referrers() {
 				if ex, ok := rf.(*ssa.Extract); ok && ex.Index == 1 {
@@ -677,4 +705,3 @@ func ruleValidateBounds(c *Ctx, r *Report, rule string) {
 		}
 	}
 }
-
